@@ -171,3 +171,11 @@ P("C12", "srcfacts+mirfacts+rules",
   "never reach the identifier; uniqueness steps keyed on event name and on identifier exist; literal payload kinds map to the documented types, "
   "the symbol table keeps generic arguments, unknown otherwise; events.ts is written under exactly `events not empty`.",
   "payload inference outside the documented forms is not decided", a=True, b=True)
+
+P("C02", "srcfacts+mirfacts+rules",
+  "static analysis: template control-path enumeration with guard truth tables (TPATH), string-shape evaluation of Rust-side emitters (SV), branch discipline of the qualification filter (SV), provenance of the index list (FLOW/ORDER over MIR), typing of template variable paths against inserted context types (TPLTYPE)",
+  "Decides the structural necessary conditions of module closure: per mode and per (has parameters, has channels) combination the command-level names referenced through `types.` "
+  "are exported exactly once by the types templates; structs and enums are exported in every spelling the mode's signatures use; add_types_prefix qualifies composites structurally; "
+  "index.ts is built from the writer's post-success list; every template variable path resolves to an inserted key and a serialised field.  Exhaustive over template paths and render sites; "
+  "collisions that depend on user identifiers are not claimed.",
+  "trusts Tera's parser (same version as the build) and serde's camelCase renaming of the context structs", a=True, b=True)
